@@ -613,13 +613,14 @@ pub fn generate(tier: &str, seed: u64) -> Vec<String> {
     // array documents
     for i in 0..n {
         let mut d = gen_array_doc(&mut rng);
+        let base_ok = d.plug_ok;   // was the document built from valid parts before the one change made to it?
         let label = if i % 3 == 2 { mutate_doc(&mut rng, &mut d) } else { "none" };
         let t = d.text();
         // a repeated key of a typed field is rejected by serde (the JSON model merges it): flagged for the driver
         let known = ["zarr_format", "node_type", "shape", "data_type", "chunk_grid", "chunk_key_encoding", "fill_value", "codecs", "attributes", "storage_transformers", "dimension_names"];
         let dup = known.iter().any(|k| d.fields.iter().filter(|f| f.0 == *k).count() > 1);
         out.push(format!("c13 adoc dup={} text={}", dup as u8, hex(t.as_bytes())));
-        out.push(format!("c13 aopen plug={} mut={} dup={} text={}", if d.plug_ok { "ok" } else { "unk" }, label, dup as u8, hex(t.as_bytes())));
+        out.push(format!("c13 aopen plug={} base={} mut={} dup={} text={}", if d.plug_ok { "ok" } else { "unk" }, if base_ok { "ok" } else { "unk" }, label, dup as u8, hex(t.as_bytes())));
     }
     for _ in 0..n / 3 {
         let d = gen_group_doc(&mut rng);
